@@ -176,6 +176,10 @@ class _G(object):
   def sent(self, st):
     return list(st.ghost.get("sent", ()))
 
+  @native
+  def get(self, st, name):
+    return st.ghost.get(name)
+
 
 G = _G()
 
@@ -519,3 +523,140 @@ class _StubMatch(of.ofp_match):
 
 for _n in (0, 1, 2):
   _mk_is_matched_by(_n)
+
+
+# ------------------------------------------------------------------ a frame that hits an entry: counters and idle clock
+
+HIT_LOG = []
+
+
+@unit(P, target="pox.datapaths.switch:SoftwareSwitchBase.rx_packet (table hit)")
+def a_matching_frame_refreshes_the_entry_whatever_its_actions(b):
+  """every frame that hits an entry - a drop rule (no actions) included - counts in the entry's packet / byte counters
+  and restarts its idle clock, and the entry's actions are applied exactly once"""
+  from pox.datapaths.switch import SoftwareSwitchBase
+  from pox.openflow.flow_table import TableEntry, FlowTable
+  from pox.lib.packet.ethernet import ethernet
+  from pox.lib.addresses import EthAddr
+  import pox.openflow.libopenflow_01 as of_
+  n_act = b.choice("number_of_actions", [0, 1, 2])
+  pc0 = b.int("packet_count", 0, 1 << 40)
+  bc0 = b.int("byte_count", 0, 1 << 50)
+  created = b.real("created", 0, 1000000)
+  touched = b.real("last_touched", 0, 1000000)
+  now = b.real("now", 0, 2000000)
+  b.assume(b.And(touched >= created, now >= touched))
+  wire = b.bytes("wire", None, 14, 1514)
+  n = len(wire) if b.mode == "conc" else wire.length()
+  acts_all = [b.new(of_.ofp_action_output), b.new(of_.ofp_action_output)]
+  port = b.new(of_.ofp_phy_port)
+  b.set(port, "port_no", 1)
+  b.set(port, "config", 0)
+  stats = b.new(of_.ofp_port_stats)
+  pkt = b.raw_new(ethernet, prev=None, next=wire, parsed=True, raw=None, src=b.new(EthAddr, b.bytes("src", 6)),
+                  dst=b.new(EthAddr, b.bytes("dst", 6)), type=0x9000)
+  if b.mode == "sym":
+    from pyvc.values import Union
+    b.st.ghost["hit"] = ()
+    alist = Union([(g, b.list(acts_all[:k_])) for g, k_ in n_act.alts])
+    entry = b.raw_new(TableEntry, actions=alist, packet_count=pc0, byte_count=bc0, created=created, last_touched=touched,
+                      idle_timeout=10, hard_timeout=0, priority=5, flags=0, cookie=0, match=b.new(of_.ofp_match), buffer_id=None)
+    table = b.raw_new(FlowTable, _table=b.list([entry]))
+    def note(I, st, f, args, kws):
+      st.ghost["hit"] = tuple(st.ghost["hit"]) + ((args[1], args[2], args[3]),)
+    cs = {"pox.openflow.flow_table:FlowTable.entry_for_packet": CallSpec("contract", returns=lambda I, st, a, k: entry,
+                                                                         envelope="lookup: property C03"),
+          "pox.datapaths.switch:SoftwareSwitchBase._process_actions_for_packet": CallSpec("contract", ghost=note,
+                                                                                           envelope="action application: property C12"),
+          "time:time": CallSpec("assumed", returns=lambda I, st, a, k: now, envelope="clock"),
+          "pox.lib.packet.packet_base:packet_base.__len__": CallSpec("contract", returns=lambda I, st, a, k: n,
+                                                                     envelope="length of the frame (C14)")}
+  else:
+    entry = TableEntry(priority=5, actions=acts_all[:n_act], now=created)
+    entry.packet_count, entry.byte_count, entry.last_touched, entry.idle_timeout = pc0, bc0, touched, 10
+    table = FlowTable()
+    table._table = [entry]
+    table.entry_for_packet = lambda p, ip: entry
+    cs = {}
+    del HIT_LOG[:]
+    import pox.openflow.flow_table as ftm
+    ftm.time.time = lambda: now
+    pkt.__class__ = type("E", (ethernet,), {"__len__": lambda self: n})
+  sw = b.raw_new(SoftwareSwitchBase, ports=b.dict({1: port}), port_stats=b.dict({1: stats}), table=table, config_flags=0,
+                 _lookup_count=0, _matched_count=0, miss_send_len=128, log=logging.getLogger("verif"))
+  if b.mode == "conc":
+    sw._process_actions_for_packet = lambda acts, p, ip, ofp=None: HIT_LOG.append((acts, p, ip))
+  def run(sw, pkt, wire):
+    sw.rx_packet(pkt, 1, wire)
+    return (entry.packet_count, entry.byte_count, entry.last_touched, sw._matched_count)
+  applied = lambda: list(G.get("hit") or ()) if b.mode == "sym" else list(HIT_LOG)
+  return Case(run, [sw, pkt, wire], calls=cs, raises={}, ensures={
+    "counters_count_the_frame": lambda res: res[0] == pc0 + 1 and res[1] == bc0 + n and res[3] == 1,
+    "the_idle_clock_restarts": lambda res: res[2] == now,
+    "the_entrys_actions_are_applied_exactly_once": lambda res: len(applied()) == 1 and applied()[0][0] is entry.actions
+                                                               and applied()[0][2] == 1,
+  })
+a_matching_frame_refreshes_the_entry_whatever_its_actions.bound = "entries with 0..2 actions"
+
+
+# ------------------------------------------------------------------ the overlap check itself (a callee of the add units)
+
+def _mk_overlap(k):
+  def u(b):
+    from pox.openflow.flow_table import TableEntry, FlowTable
+    effs = [b.int("entry%d.effective_priority" % i, 0, 65537) for i in range(k)]
+    for i in range(1, k):
+      b.assume(effs[i - 1] >= effs[i])                  # the table is kept sorted (C03)
+    new_eff = b.int("new.effective_priority", 0, 65537)
+    a_in_new = [b.bool("entry%d_is_matched_by_new" % i) for i in range(k)]      # e.is_matched_by(new.match)
+    new_in_a = [b.bool("new_is_matched_by_entry%d" % i) for i in range(k)]      # new.is_matched_by(e.match)
+    matches = [b.raw_new(object) for _ in range(k + 1)]
+    entries = [b.raw_new(TableEntry, match=matches[i], priority=0, actions=b.list([])) for i in range(k)]
+    new = b.raw_new(TableEntry, match=matches[k], priority=0, actions=b.list([]))
+    table = b.raw_new(FlowTable, _table=b.list(entries))
+    if b.mode == "sym":
+      def eff_of(I, st, args, kws):
+        for i, e in enumerate(entries):
+          if args[0] == e:
+            return effs[i]
+        return new_eff
+      def matched(I, st, args, kws):
+        me, m = args[0], args[1]
+        for i, e in enumerate(entries):
+          if me == e and m == matches[k]:
+            return a_in_new[i]
+          if me == new and m == matches[i]:
+            return new_in_a[i]
+        raise AssertionError("unexpected is_matched_by call")
+      cs = {FT + "TableEntry.effective_priority": CallSpec("contract", returns=eff_of, envelope="effective priority (C03 unit)"),
+            FT + "TableEntry.is_matched_by": CallSpec("contract", returns=matched, envelope="subsumption (is_matched_by_* / nonstrict_selection_* units)")}
+    else:
+      cs = {}
+      cls = type("E", (TableEntry,), {})
+      def eff_get(self):
+        for i, e in enumerate(entries):
+          if self is e:
+            return effs[i]
+        return new_eff
+      def imb(self, m, priority=None, strict=False, out_port=None):
+        for i, e in enumerate(entries):
+          if self is e and m is matches[k]:
+            return a_in_new[i]
+          if self is new and m is matches[i]:
+            return new_in_a[i]
+        raise AssertionError("unexpected is_matched_by call")
+      cls.effective_priority = property(eff_get)
+      cls.is_matched_by = imb
+      for e in entries + [new]:
+        e.__class__ = cls
+    return Case(FlowTable.check_for_overlapping_entry, [table, new], calls=cs, raises={}, ensures={
+      "overlap_iff_an_entry_of_the_same_priority_matches_a_common_packet":
+        lambda res: bool(res) == any([effs[i] == new_eff and (a_in_new[i] or new_in_a[i]) for i in range(k)]),
+    })
+  u.__name__ = "overlap_check_%d_entries" % k
+  u.bound = "tables of 0..3 entries"
+  unit(P, target=FT + "FlowTable.check_for_overlapping_entry")(u)
+
+
+for _k in (0, 1, 2, 3):
+  _mk_overlap(_k)
